@@ -69,10 +69,14 @@ MinPairs(act, d) == {p \in Pairs(act) : \A q \in Pairs(act) : d[p] <= d[q]}
 
 LInit(d0, cs0, w0) == active = 0..(N - 1) /\ dist = d0 /\ nxt = N /\ merges = <<>> /\ cset = cs0 /\ iw = w0
 
-Merge ==
-  \E p \in MinPairs(active, dist) :
-     LET s == After(active, dist, nxt, merges, cset, iw, p[1], p[2]) IN
+(* merging the live pair p is allowed iff no live pair is closer *)
+MergePair(p) ==
+  /\ p \in Pairs(active)
+  /\ \A q \in Pairs(active) : dist[p] <= dist[q]
+  /\ LET s == After(active, dist, nxt, merges, cset, iw, p[1], p[2]) IN
      active' = s.active /\ dist' = s.dist /\ nxt' = s.nxt /\ merges' = s.merges /\ cset' = s.cset /\ iw' = iw
+
+Merge == \E p \in MinPairs(active, dist) : MergePair(p)
 
 (* all complete merge sequences from a configuration (ties branch) *)
 RECURSIVE Dendrograms(_, _, _, _, _, _)
